@@ -79,8 +79,10 @@ def _make_objective(spec):
 
     elif kind == "offset":  # large values, small gaps: relative tolerances in comparisons become visible
 
+        tiny = int(spec.get("seed", 0)) % 2 == 1  # half of them: gaps of 1e-9 relative (tolerant equality tests show)
+
         def f(x):
-            return 1000.0 + four(x)
+            return (1.0e6 + 1.0e-3 * four(x)) if tiny else (1000.0 + four(x))
 
     elif kind == "sphere":
 
@@ -216,6 +218,8 @@ def rand_spec(rng, **force):
              # child populations are sampled around the seed with this standard deviation: small, of the
              # order of the box, and several box widths (rejection sampling against the box must hold, C01)
              "sample_std_dev": float(rng.choice([0.1, 0.1, 0.1, 0.5, 2.0])) * scale}
+        if isinstance(force.get("lsc"), dict) and lvl in force["lsc"]:
+            L["lsc"] = force["lsc"][lvl]
         if k in ("sea", "seax", "ga", "adapt", "mwea", "xsea"):
             L["k_elites"] = int(rng.integers(1, 3))
             L["mutation_std"] = 0.15 * scale
@@ -551,6 +555,7 @@ class Run:
         self.order = []  # deme ids in creation order
         self.tree = None
         self.gsc_log = []  # (index into ev, who, verdict)
+        self.lsc_after = {}  # index of a RUN_END event -> verdict of the (pure, shipped) LSC on the state the run left
         self.error = None
         self.objs = None
         self.steps = 0
@@ -698,6 +703,16 @@ class Run:
                     except Exception:
                         cma_stop = None
                 run.ev.append(("RUN_END", d.id, bool(d.is_active), new_gens, int(d.n_evaluations), cma_stop))
+                # the shipped local stop conditions are pure functions of the deme: their verdict on the state
+                # run_metaepoch leaves behind is "the LSC at the end of the metaepoch" (C06), whenever the
+                # code chose to consult it
+                try:
+                    lw = d._lsc
+                    li = getattr(lw, "inner", None)
+                    if type(li).__name__ in ("MetaepochLimit", "FitnessSteadiness", "AllChildrenStopped", "DontStop", "DontRun") and type(d).__name__ != "LocalDeme":
+                        run.lsc_after[len(run.ev) - 1] = bool(li(d))
+                except Exception:  # noqa: BLE001
+                    pass
                 run.who = None
 
             d.run_metaepoch = run_me
